@@ -248,7 +248,10 @@ def parse_ttml(doc):
     body = root.find(ns + 'body')
     if body is not None:
         for div in body.iter(ns + 'div'):
-            d = {'lang': div.get('{%s}lang' % XMLNS), 'attrib': dict(div.attrib), 'ps': []}
+            # xml:lang is inherited: a div that does not declare a language has the document's
+            own = div.get('{%s}lang' % XMLNS)
+            d = {'lang': own if own is not None else res['lang'], 'own_lang': own,
+                 'attrib': dict(div.attrib), 'ps': []}
             for p in div.iter(ns + 'p'):
                 lines = [[]]
                 spans = []
